@@ -254,11 +254,17 @@ pub fn run_generic(prop: &'static str, tier: Tier, tree: bool, spans: bool) -> i
     let k = tier.pick(2, 2);
     let mut stats = Stats::default();
     let mut total_cases = 0u64;
-    let mut per_level = vec![0u64; 4];
+    let mut per_level = vec![0u64; 5];
     for doc in &docs {
         let base = render(doc, &[]);
         // thorough: full 3-deviation ball for the small documents
-        let kk = if base.points.len() <= tier.pick(40, 80) { 3 } else { k };
+        let kk = if tier == Tier::Thorough && base.points.len() <= 20 {
+            4
+        } else if base.points.len() <= tier.pick(40, 80) {
+            3
+        } else {
+            k
+        };
         let b = ball(&base.points, kk);
         total_cases += b.len() as u64;
         for d in &b {
@@ -311,7 +317,7 @@ pub fn run_generic(prop: &'static str, tier: Tier, tree: bool, spans: bool) -> i
         "distinct_nontrivial": total_cases,
         "rule": format!("{} abstract documents (sharp characters in text and attribute values, structure with comments / PIs / top-level items, namespace layouts with shadowing, undeclaration, synonymous prefixes and a URI containing '&', xml:id / xml:space) x every spelling with at most {} deviations (3 for the small documents) from the default spelling over the renderer's choice points (character: literal / entity / decimal / hex / CDATA; line ends LF / CR / CRLF; attribute white space; quote style; in-tag white space; declaration / attribute interleaving; prefix choice; empty-element form; prolog; top-level white space; PI separator; xml:id padding; entry point parse / parse_with_span_info / parse_fragment / parse_bytes as UTF-8 +- BOM, UTF-16LE/BE, declared ISO-8859-1 / windows-1252); distinct = number of deviation sets (each is a different text or entry point)", docs.len(), k),
         "documents": docs.len(),
-        "deviation_levels": {"0": per_level[0], "1": per_level[1], "2": per_level[2], "3": per_level[3]},
+        "deviation_levels": {"0": per_level[0], "1": per_level[1], "2": per_level[2], "3": per_level[3], "4": per_level[4]},
     });
     if let Some(o) = cov.as_object_mut() {
         o.insert("samples".into(), json!(stats.samples));
